@@ -42,3 +42,53 @@ Proof.
   apply (chain_ok_others_free groups h sgs 0 0 Hc sg); [|apply HM; exact Hsg].
   rewrite Heq. apply in_or_app. right. right. apply in_or_app. left. exact Hsg.
 Qed.
+
+(* ------------------------------------------------------------------ loop schedules *)
+From HV Require Import Dfir.PTick.
+
+Definition keeps (h : N) (a b : world) : Prop := get h (w_buf a) = get h (w_buf b).
+
+Lemma keeps_refl : forall h w, keeps h w w.
+Proof. intros; reflexivity. Qed.
+Lemma keeps_trans : forall h a b c, keeps h a b -> keeps h b c -> keeps h a c.
+Proof. unfold keeps. intros. congruence. Qed.
+
+(* an instruction that passes the test -- however often its loop gates let it run -- leaves the
+   slot alone *)
+Theorem exec_free : forall ext h i w, instr_free_b h i = true -> keeps h w (exec ext i w).
+Proof.
+  intros ext h i. induction i as [sg | hs | root checks body swaps IH] using instr_ind'; intros w H.
+  - cbn [exec instr_free_b] in *. unfold keeps. symmetry. apply run_sg_buf_free. apply buf_free_b_sound. exact H.
+  - cbn [exec instr_free_b] in *. apply negb_true_iff in H. apply nmem_false in H. unfold keeps.
+    revert w. induction hs as [|x hs IHh]; intros w; cbn [fold_left]; [reflexivity|].
+    rewrite <- IHh by (intro Hx; apply H; right; exact Hx).
+    cbn [w_buf set_buf]. unfold get. symmetry. apply lookup_update_other. intro; subst. apply H. left. reflexivity.
+  - cbn [instr_free_b] in H. apply andb_true_iff in H. destruct H as [Hb Hs].
+    apply negb_true_iff in Hs. apply nmem_false in Hs. rewrite forallb_forall in Hb. rewrite Forall_forall in IH.
+    assert (Hbody : forall w0, keeps h w0 (swap_all swaps (fold_left (fun w i => exec ext i w) body w0))).
+    { intros w0. eapply keeps_trans.
+      - apply (fold_left_R (keeps h) (keeps_refl h) (keeps_trans h) (fun w i => exec ext i w) body). intros w1 x Hx. apply IH; [exact Hx | apply Hb; exact Hx].
+      - unfold keeps. symmetry. exact (proj2 (swap_all_notin swaps _ h Hs)). }
+    cbn [exec]. destruct checks as [|c cs]; [apply Hbody|].
+    destruct root.
+    + destruct (existsb _ _); [apply Hbody | apply keeps_refl].
+    + apply (while_gate_R (keeps h) (keeps_refl h) (keeps_trans h)); [exact Hbody | intros; reflexivity].
+Qed.
+
+Lemma exec_list_free : forall ext h is w, forallb (instr_free_b h) is = true ->
+  keeps h w (fold_left (fun w i => exec ext i w) is w).
+Proof.
+  intros ext h is w H. rewrite forallb_forall in H.
+  apply (fold_left_R (keeps h) (keeps_refl h) (keeps_trans h) (fun w i => exec ext i w) is). intros w1 x Hx. apply exec_free. apply H. exact Hx.
+Qed.
+
+(* settled reads on a schedule with loop blocks: after the instructions A, an instruction P that
+   uses the slot (a block, or a whole loop containing such blocks) and any instructions M that pass
+   the test -- blocks and whole loops, whatever their gates do -- the slot holds what P left *)
+Theorem settled_on_loop_schedule : forall ext h A P M w,
+  forallb (instr_free_b h) M = true ->
+  get h (w_buf (fold_left (fun w i => exec ext i w) (A ++ P :: M) w)) =
+  get h (w_buf (exec ext P (fold_left (fun w i => exec ext i w) A w))).
+Proof.
+  intros ext h A P M w HM. rewrite fold_left_app. cbn [fold_left]. symmetry. apply exec_list_free. exact HM.
+Qed.
